@@ -6,12 +6,19 @@ import QuriVerif.Generated.C12Inverse
   Per-gate facts `sem (inverse_gate g) · sem g ∝ 1` are the generated obligations
   `inv_<Kind>_ok` (Generated/C12Inverse.lean, symbolic angles, both orders are
   the same statement for unitaries).  For the unchanged tree they FAIL for U2 and U3
-  (all parameters negated): `inv_U2_known_defect`, `inv_U3_known_defect` are the
-  witness theorems; the lifting theorems below therefore carry the per-gate fact as
+  (all parameters negated): `inv_U2_pinned_defect`, `inv_U3_pinned_defect` below are the
+  witness theorems (literal copies of the pinned rows; the rows translated from the working tree are decided either way:
+  `inv_U2_known_row_decided`, so that a repair upstream is not an alarm); the lifting theorems below therefore carry the per-gate fact as
   a hypothesis and are the `_partial` form for circuits without U2/U3.
 -/
 namespace QV.Props.C12
 open QV QV.C12 PhaseMonoid
+
+def pinned_inv_U2 : List Gate := [G .U2 [] [0] [⟨[1], 0⟩, ⟨[0, 1], 0⟩], G .U2 [] [0] [⟨[-1], 0⟩, ⟨[0, -1], 0⟩]]
+def pinned_inv_U3 : List Gate := [G .U3 [] [0] [⟨[1], 0⟩, ⟨[0, 1], 0⟩, ⟨[0, 0, 1], 0⟩], G .U3 [] [0] [⟨[-1], 0⟩, ⟨[0, -1], 0⟩, ⟨[0, 0, -1], 0⟩]]
+/-- negating all parameters does not invert U2 / U3 (the pinned tree's `inverse_gate`; replayed on the real code) -/
+theorem inv_U2_pinned_defect : SMat.propTo (circMat 1 pinned_inv_U2) (SMat.identity 2) = false := by decide +kernel
+theorem inv_U3_pinned_defect : SMat.propTo (circMat 1 pinned_inv_U3) (SMat.identity 2) = false := by decide +kernel
 
 variable {M : Type} [PhaseMonoid M] {Γ : Type}
 
